@@ -1,6 +1,70 @@
 (* C19 — property theorems only (proved in P_Summary.v). *)
-Require Import Base M_Format M_Summary.
+Require Import Base M_Format M_Summary P_Format P_Summary.
+From Coq Require Import NArith String.
 
-Theorem C19_placeholder : summary false false false (Stk None [] None None) = [].
-Proof. reflexivity. Qed.
-Print Assumptions C19_placeholder.
+(* show_contexts=False: one FrameSummary per non-hidden frame (all frames with
+   show_hidden_frames), in order, carrying that frame's filename, lineno and function name *)
+Theorem C19_no_contexts : forall sh cl s,
+  summary false sh cl s = map (frame_entry cl) (filter (fun f => visb sh (f_hide f)) (s_frames s)).
+Proof. exact no_contexts. Qed.
+Print Assumptions C19_no_contexts.
+
+(* show_contexts=True: per visible frame, for each visible context an entry at the with-line,
+   then its inner stack (recursively, with contexts), then its child contexts (child task stacks
+   contribute nothing); the frame's own entry is omitted iff its last context is exiting *)
+Theorem C19_with_contexts : forall sh cl,
+  (forall s, summary true sh cl s
+             = flat_map (sum_frame sh cl) (filter (fun f => visb sh (f_hide f)) (s_frames s)))
+  /\ (forall f, sum_frame sh cl f
+                = flat_map (sum_ctx f sh cl None) (filter (fun c => visb sh (c_hide c)) (f_ctxs f))
+                  ++ (if last_exiting (f_ctxs f) then [] else [frame_entry cl f]))
+  /\ (forall p ov c, sum_ctx p sh cl ov c
+                = if visb sh (c_hide c)
+                  then ctx_entry p cl ov c
+                       :: (match c_inner c with Some s => summary true sh cl s | None => [] end)
+                       ++ flat_map (fun c' => sum_ctx p sh cl (Some (child_override c')) c') (child_contexts (c_kids c))
+                  else []).
+Proof. exact with_contexts. Qed.
+Print Assumptions C19_with_contexts.
+
+(* PARTIAL.  Full statement (not proved): the entry sequence of the summary equals the
+   frame/context header lines of fmt, child task stacks removed, frames moved behind their
+   contexts, for the whole tree.  Proved: at every level the summary and the skeleton that
+   C18_roundtrip reads back from the text are indexed by the SAME list of visible frames /
+   visible contexts, in the same order (the recursion into inner stacks uses the same functions). *)
+Theorem C19_projection_partial : forall o cl,
+  show_ctx o = true ->
+  (forall r fs lf er,
+      let V := filter (fun f => visb (show_hidden o) (f_hide f)) fs in
+      summary true (show_hidden o) cl (Stk r fs lf er) = flat_map (sum_frame (show_hidden o) cl) V
+      /\ (let 'SkStack sf _ _ := sk_body o (Stk r fs lf er) in sf) = map (sk_of_frame o) V)
+  /\ (forall f,
+      let V := filter (fun c => visb (show_hidden o) (c_hide c)) (f_ctxs f) in
+      sum_frame (show_hidden o) cl f
+      = flat_map (sum_ctx f (show_hidden o) cl None) V ++ (if last_exiting (f_ctxs f) then [] else [frame_entry cl f])
+      /\ (let 'SkFrame _ cx _ := sk_of_frame o f in cx) = map (sk_of_ctx o true true) V).
+Proof. exact projection_levels. Qed.
+Print Assumptions C19_projection_partial.
+
+(* format_flat = header ++ rendering of the summary (hidden frames dropped, no locals) ++ leaf
+   ++ error, for ANY rendering function (traceback.StackSummary.format is not modelled) *)
+Theorem C19_flat : forall (render : list entry -> list text) sc s,
+  format_flat render sc s
+  = header_text (s_root s)
+    :: (if nonempty (s_frames s) then render (summary sc false false s) else [])
+    ++ flat_leaf (s_leaf s) ++ flat_err (s_err s).
+Proof. exact flat_eq. Qed.
+Print Assumptions C19_flat.
+
+Definition ex_f (h : bool) (cs : list context) : frame :=
+  Frm (a "f") None (Some (a "m")) (a "x.py") 3%N (a "return 1") [] h false cs.
+Definition ex_c (h ex : bool) (inn : option stack) (ks : list child) : context :=
+  Ctx (Some (a "T")) false ex (Some (a "v")) (Some 2%N) (Some (a "d")) (a "with t() as v:") [] [] inn ks h.
+Definition ex_s : stack :=
+  Stk None [ex_f true []; ex_f false [ex_c false false (Some (Stk None [ex_f false []] None None))
+                                            [KCtx (ex_c true false None []); KStk (Stk None [ex_f false []] None None)];
+                                      ex_c false true None []]] None None.
+Example C19_example :
+  List.length (summary false false false ex_s) = 1 /\ List.length (summary false true false ex_s) = 2
+  /\ List.length (summary true false false ex_s) = 3 /\ List.length (summary true true false ex_s) = 5.
+Proof. vm_compute. repeat split. Qed.
